@@ -162,6 +162,17 @@ where
         ))))
     }
 
+    /// Wake every task waiting for a stream ID, e.g. because the connection failed:
+    /// the woken task polls again and observes the connection error.
+    pub fn wake_all(&self) {
+        let mut guard = self.0.lock().unwrap();
+        for wakers in guard.wakers.iter_mut() {
+            for waker in wakers.drain(..) {
+                waker.wake();
+            }
+        }
+    }
+
     /// Returns local role
     pub fn role(&self) -> Role {
         self.0.lock().unwrap().role()
